@@ -257,8 +257,8 @@ impl Prop for C08 {
     }
     fn budget(&self, tier: Tier) -> Budget {
         match tier {
-            Tier::Quick => Budget { cases: 40_000, max_tape: 512 },
-            Tier::Thorough => Budget { cases: 800_000, max_tape: 1024 },
+            Tier::Quick => Budget { cases: 400_000, max_tape: 512 },
+            Tier::Thorough => Budget { cases: 6_000_000, max_tape: 1024 },
         }
     }
     fn run_tape(&self, tape: &[u8], tier: Tier, rec: &mut Recorder) -> Result<(), Failure> {
